@@ -3,12 +3,16 @@
 (M) TLC exhausts specs/auth/Auth.tla (tables with FK cascades, AuthManager.cache, RBACManager
     tokenCache/permCache, the policy as written) over every history of <=2 (thorough: <=3)
     mutators from three initial configurations with the flush set of the tree as it is
-    now: CacheCoherent must hold.  Three variants with one flush removed (token permissions, direct
-    DeleteOrganization, AuthManager.InvalidateCache) must fail: they document which flushes
+    now: CacheCoherent must hold.  Four variants with one flush removed or narrowed (token permissions, direct
+    DeleteOrganization, AuthManager.InvalidateCache, team mutators flushing only the tokens
+    whose cached token data names the team) must fail: they document which flushes
     carry the property and that the model discriminates.
 (G) every history of 2 mutators (thorough: + seeded random histories of 6) is replayed by
     harness/cmd/authrbac on the real AuthManager+RBACManager over SQLite, in direct mode and in
-    cluster-apply mode (loop-back proposer -> real ClusterFSM -> real Apply*).  After the
+    cluster-apply mode (loop-back proposer -> real ClusterFSM -> real Apply*).  The two RBAC
+    cache levels have independent lifetimes: ExpireTokenData (a token-data entry is swept
+    while decisions cached later from it live on) is realised right before the first mutator
+    with the overlay-substituted clock and the real janitor (cleanupExpiredCache).  After the
     set-up and after every mutator the whole request matrix is asked through the caches and
     compared with a cache-free evaluation on the same database: real-vs-real is the verdict;
     TLC's Policy prediction is only the drift detector.
@@ -22,7 +26,8 @@ from vlib import InfraError, write_ndjson
 LEVEL = "model_checking"
 
 OP_KINDS = ["CreateOrg", "UpdateOrg", "DeleteOrg", "CreateTeam", "UpdateTeam", "DeleteTeam", "CreateRole", "UpdateRole",
-            "DeleteRole", "CreateMP", "DeleteMP", "AddMember", "RemoveMember", "SetTokenPerms", "RevokeToken", "DeleteToken"]
+            "DeleteRole", "CreateMP", "DeleteMP", "AddMember", "RemoveMember", "SetTokenPerms", "RevokeToken", "DeleteToken",
+            "ExpireTokenData"]
 
 
 def par(jobs):
@@ -52,7 +57,7 @@ def par(jobs):
 def run(ctx):
     quick = ctx.quick()
     mc_cfg = "Rbac_MC_small.cfg" if quick else "Rbac_MC_large.cfg"
-    variants = ["tokenperms", "deleteorg", "authcache"]
+    variants = ["tokenperms", "deleteorg", "authcache", "teamscan"]
     jobs = [lambda: ctx.tlc("auth", "Auth", mc_cfg, coverage=True, workers=4, timeout=2400),
             lambda: ctx.tlc("auth", "Auth", "Rbac_Gen_small.cfg", workers=4, timeout=1800)]
     for v in variants:
@@ -63,7 +68,8 @@ def run(ctx):
     built = {}
 
     def build():
-        ov = ctx.make_overlay(["auth"])
+        extra = ctx.overlaygen(["-clock", "internal/auth/rbac_manager.go"])
+        ov = ctx.make_overlay(["auth"], extra=extra)
         built["bin"] = ctx.go_build("authrbac", overlay=ov)
     jobs.append(build)
     res = par(jobs)
